@@ -249,6 +249,10 @@ static int rtosc_print_range(const rtosc_arg_val_t* arg,
                     tmp = rtosc_print_arg_val(&second, buffer, bs,
                                               opt, cols_used, NULL);
                     COUNT_UP(tmp);
+                    // if that already was the last value, we're finished
+                    // ("a b ... b" would be another range)
+                    if(rtosc_arg_rep_num(val) == 2)
+                        return wrt;
                 }
             }
 
